@@ -120,6 +120,7 @@ func (fv *FV) evalArgs(st *State, call *ast.CallExpr, sig *types.Signature) []Va
 }
 
 func (fv *FV) evalCall(st *State, call *ast.CallExpr) []Val {
+	fv.curState = st
 	info := fv.info()
 	// conversion?
 	if tv, ok := info.Types[call.Fun]; ok && tv.IsType() {
@@ -241,6 +242,16 @@ func unparen(e ast.Expr) ast.Expr {
 		}
 		e = p.X
 	}
+}
+
+// allocAbove: the allocation counter is at least ref afterwards.
+func (fv *FV) allocAbove(st *State, ref string) {
+	if fv.pure > 0 {
+		return
+	}
+	a2 := fv.sess.fresh("alloc", "Int")
+	fv.sess.fact(fmt.Sprintf("(and (>= %s %s) (>= %s %s))", a2, fv.allocCur(st), a2, ref))
+	st.heap["$alloc"] = Val{T: a2, S: "Int"}
 }
 
 func (fv *FV) isTopParam(o *types.Var) bool {
@@ -446,7 +457,8 @@ func (fv *FV) evalBuiltin(st *State, call *ast.CallExpr, name string) []Val {
 			return []Val{{T: fmt.Sprintf("((as mkmp %s) %s ((as const (Array %s Bool)) false) %s)", fv.sess.sortOf(t), fv.constArr(ks, vs, z.T), ks, fv.newRef()), S: fv.sess.sortOf(t), Go: t}}
 		case *types.Chan:
 			c := fv.freshVal("chan", t)
-			fv.assume(st, fmt.Sprintf("(> %s alloc0)", c.T))
+			fv.assume(st, fmt.Sprintf("(> %s %s)", c.T, fv.allocCur(st)))
+			st.heap["$alloc"] = Val{T: c.T, S: "Int"}
 			fv.setChanClosed(st, c.T, "false")
 			return []Val{c}
 		}
@@ -540,7 +552,11 @@ func (fv *FV) appendRef(st *State, s Val) string {
 		return "1"
 	}
 	r := fv.sess.fresh("ref", "Int")
-	fv.sess.fact(fmt.Sprintf("(and (> %s 0) (or (> %s alloc0) (= %s (sq.ref %s))))", r, r, r, s.T))
+	cur := fv.allocCur(st)
+	fv.sess.fact(fmt.Sprintf("(and (> %s 0) (or (> %s %s) (= %s (sq.ref %s))))", r, r, cur, r, s.T))
+	a2 := fv.sess.fresh("alloc", "Int")
+	fv.sess.fact(fmt.Sprintf("(and (>= %s %s) (>= %s %s))", a2, cur, a2, r))
+	st.heap["$alloc"] = Val{T: a2, S: "Int"}
 	return r
 }
 
@@ -567,6 +583,8 @@ func (fv *FV) concatSeq(st *State, a, b Val, t types.Type) Val {
 // library type (mutex, atomic) embedded in a heap object or a local variable.
 type loc struct {
 	obj  types.Object // local variable
+	path []*types.Var // value-field path inside the local variable (struct value)
+	objT types.Type   // type of the local variable when path is set
 	key  string       // heap key (array indexed by ref) if obj == nil
 	ref  string
 	sort string
@@ -597,6 +615,27 @@ func (fv *FV) locOf(st *State, e ast.Expr) (loc, bool) {
 			}
 			return loc{}, false
 		}
+		// field of a local struct value: mut.cacheCalled
+		if id, ok := unparen(x.X).(*ast.Ident); ok && !isPointer(sel.Recv()) {
+			if v, ok := info.Uses[id].(*types.Var); ok && !(v.Pkg() != nil && v.Parent() == v.Pkg().Scope()) {
+				ct := sel.Recv()
+				var path []*types.Var
+				okPath := true
+				for _, idx := range sel.Index() {
+					stt := structOf(ct)
+					if stt == nil || isPointer(ct) {
+						okPath = false
+						break
+					}
+					f := stt.Field(idx)
+					path = append(path, f)
+					ct = f.Type()
+				}
+				if okPath && len(path) > 0 {
+					return loc{obj: v, path: path, objT: v.Type(), sort: fv.sess.sortOf(ct), goT: ct}, true
+				}
+			}
+		}
 		cur := fv.eval(st, x.X)
 		ct := sel.Recv()
 		idxs := sel.Index()
@@ -619,6 +658,18 @@ func (fv *FV) locOf(st *State, e ast.Expr) (loc, bool) {
 }
 
 func (fv *FV) locGet(st *State, l loc) Val {
+	if l.obj != nil && len(l.path) > 0 {
+		cur, ok := st.vars[l.obj]
+		if !ok {
+			cur = fv.zero(l.objT)
+		}
+		ct := l.objT
+		for _, f := range l.path {
+			cur = fv.stepField(st, cur, ct, f, nil)
+			ct = f.Type()
+		}
+		return cur
+	}
 	if l.obj != nil {
 		if v, ok := st.vars[l.obj]; ok {
 			return v
@@ -634,6 +685,16 @@ func (fv *FV) locGet(st *State, l loc) Val {
 }
 
 func (fv *FV) locSet(st *State, l loc, v Val) {
+	if l.obj != nil && len(l.path) > 0 {
+		cur, ok := st.vars[l.obj]
+		if !ok {
+			cur = fv.zero(l.objT)
+		}
+		nv := fv.updatePath(cur, l.objT, l.path, Val{T: v.T, S: l.sort, Go: l.goT})
+		nv.Go = l.objT
+		st.vars[l.obj] = fv.name(l.obj.Name(), nv)
+		return
+	}
 	if l.obj != nil {
 		st.vars[l.obj] = Val{T: v.T, S: l.sort, Go: l.goT}
 		return
@@ -786,18 +847,15 @@ func (fv *FV) stdlibCall(st *State, call *ast.CallExpr, fn *types.Func, full str
 		s := args[0]
 		r := fv.freshSort("clone", s.S)
 		r.Go = t
-		fv.assume(st, fmt.Sprintf("(and (= (sq.arr %s) (sq.arr %s)) (= (sq.len %s) (sq.len %s)) (ite (= (sq.ref %s) 0) (= (sq.ref %s) 0) (> (sq.ref %s) alloc0)))", r.T, s.T, r.T, s.T, s.T, r.T, r.T))
+		fv.assume(st, fmt.Sprintf("(and (= (sq.arr %s) (sq.arr %s)) (= (sq.len %s) (sq.len %s)) (ite (= (sq.ref %s) 0) (= (sq.ref %s) 0) (> (sq.ref %s) %s)))", r.T, s.T, r.T, s.T, s.T, r.T, r.T, fv.allocCur(st)))
+		fv.allocAbove(st, fmt.Sprintf("(sq.ref %s)", r.T))
 		return one(r)
 	case "slices.Contains":
 		es := seqElemSort(args[0].S)
 		return one(Val{T: fmt.Sprintf("(%s %s %s)", fv.sess.fnMem(es), args[0].T, args[1].T), S: "Bool", Go: t})
 	case "slices.Index":
 		es := seqElemSort(args[0].S)
-		r := fv.freshVal("idx", types.Typ[types.Int])
-		s, x := args[0].T, args[1].T
-		fv.assume(st, fmt.Sprintf("(and (>= %s (- 1)) (< %s (sq.len %s)) (ite (%s %s %s) (and (>= %s 0) (= (select (sq.arr %s) %s) %s) (forall ((j!q Int)) (=> (and (<= 0 j!q) (< j!q %s)) (not (= (select (sq.arr %s) j!q) %s))))) (= %s (- 1))))",
-			r.T, r.T, s, fv.sess.fnMem(es), s, x, r.T, s, r.T, x, r.T, s, x, r.T))
-		return one(r)
+		return one(Val{T: fmt.Sprintf("(%s %s %s)", fv.sess.fnIndex(es), args[0].T, args[1].T), S: "Int", Go: t})
 	case "slices.Equal":
 		es := seqElemSort(args[0].S)
 		return one(Val{T: fmt.Sprintf("(%s %s %s)", fv.sess.fnSeqeq(es), args[0].T, args[1].T), S: "Bool", Go: t})
@@ -853,14 +911,16 @@ func (fv *FV) stdlibCall(st *State, call *ast.CallExpr, fn *types.Func, full str
 		ks, _ := mapSorts(m.S)
 		r := fv.freshVal("keys", t)
 		mem := fv.sess.fnMem(ks)
-		fv.assume(st, fmt.Sprintf("(and (%s %s) (> (sq.ref %s) alloc0) (forall ((x!q %s)) (! (= (%s %s x!q) (select (mp.dom %s) x!q)) :pattern ((%s %s x!q)) :pattern ((select (mp.dom %s) x!q)))))",
-			fv.sess.fnNodup(ks), r.T, r.T, ks, mem, r.T, m.T, mem, r.T, m.T))
+		fv.assume(st, fmt.Sprintf("(and (%s %s) (> (sq.ref %s) %s) (forall ((x!q %s)) (! (= (%s %s x!q) (select (mp.dom %s) x!q)) :pattern ((%s %s x!q)) :pattern ((select (mp.dom %s) x!q)))))",
+			fv.sess.fnNodup(ks), r.T, r.T, fv.allocCur(st), ks, mem, r.T, m.T, mem, r.T, m.T))
+		fv.allocAbove(st, fmt.Sprintf("(sq.ref %s)", r.T))
 		return one(r)
 	case "maps.Clone":
 		m := args[0]
 		r := fv.freshSort("mclone", m.S)
 		r.Go = t
-		fv.assume(st, fmt.Sprintf("(and (= (mp.val %s) (mp.val %s)) (= (mp.dom %s) (mp.dom %s)) (ite (= (mp.ref %s) 0) (= (mp.ref %s) 0) (> (mp.ref %s) alloc0)))", r.T, m.T, r.T, m.T, m.T, r.T, r.T))
+		fv.assume(st, fmt.Sprintf("(and (= (mp.val %s) (mp.val %s)) (= (mp.dom %s) (mp.dom %s)) (ite (= (mp.ref %s) 0) (= (mp.ref %s) 0) (> (mp.ref %s) %s)))", r.T, m.T, r.T, m.T, m.T, r.T, r.T, fv.allocCur(st)))
+		fv.allocAbove(st, fmt.Sprintf("(mp.ref %s)", r.T))
 		return one(r)
 	case "strings.HasPrefix":
 		return one(Val{T: fmt.Sprintf("(s.prefix %s %s)", args[0].T, args[1].T), S: "Bool", Go: t})
@@ -869,6 +929,8 @@ func (fv *FV) stdlibCall(st *State, call *ast.CallExpr, fn *types.Func, full str
 	case "context.Context.Err", "context.Context.Done", "context.Context.Value":
 	case "sort.Search":
 		return fv.sortSearch(st, call, args)
+	case "slices.BinarySearchFunc":
+		return fv.binarySearchFunc(st, call, args)
 	case "sort.SliceStable", "sort.Slice", "slices.Sort", "sort.Strings":
 		// in-place sort: the result is a permutation of the input. Only the
 		// permutation facts are modelled here (same length, same members, no
@@ -906,6 +968,14 @@ func (fv *FV) sortSearch(st *State, call *ast.CallExpr, args []Val) ([]Val, bool
 		defer func() { fv.pure-- }()
 		r := fv.callClosure(st.clone(), f.Clos, []Val{{T: i, S: "Int", Go: types.Typ[types.Int]}}, call)
 		return r[0].T
+	}
+	// the closure runs on every index in [0,n): its own safety (bounds, nil) is
+	// checked once for an arbitrary such index
+	{
+		chk := st.clone()
+		iv := fv.freshSort("si", "Int")
+		chk.pc = fv.namePC(and(st.pc, fmt.Sprintf("(and (<= 0 %s) (< %s %s))", iv.T, iv.T, n.T)))
+		fv.callClosure(chk, f.Clos, []Val{{T: iv.T, S: "Int", Go: types.Typ[types.Int]}}, call)
 	}
 	fv.oblige(st, "call(sort.Search).pre", "monotone",
 		fmt.Sprintf("(forall ((a!q Int) (b!q Int)) (=> (and (<= 0 a!q) (<= a!q b!q) (< b!q %s) %s) %s))", n.T, pred("a!q"), pred("b!q")),
@@ -1092,10 +1162,14 @@ func (fv *FV) callByContract(st *State, c *Contract, fn *types.Func, sig *types.
 	}
 	// frame
 	fv.havocFrame(st, c, env)
+	// the callee may have allocated
+	allocBefore := fv.allocCur(st)
+	fv.advanceAlloc(st)
 	// results
 	var out []Val
 	for i := 0; i < sig.Results().Len(); i++ {
 		v := fv.freshVal("r_"+lastSeg(short), sig.Results().At(i).Type())
+		fv.liveRef(st, v)
 		out = append(out, v)
 		if i < len(c.Results) {
 			names[c.Results[i]] = v
@@ -1128,10 +1202,7 @@ func (fv *FV) callByContract(st *State, c *Contract, fn *types.Func, sig *types.
 			nv := fv.freshVal("nf_"+f.Name(), f.Type())
 			st.heap[key] = fv.name("H", Val{T: fmt.Sprintf("(store %s %s %s)", h.T, v.T, nv.T), S: h.S, Go: h.Go})
 		}
-		for _, o := range fv.w.allocs[fv] {
-			fv.assume(st, fmt.Sprintf("(not (= %s %s))", v.T, o))
-		}
-		fv.w.allocs[fv] = append(fv.w.allocs[fv], v.T)
+		fv.assume(st, fmt.Sprintf("(> %s %s)", v.T, allocBefore))
 	}
 	// side effects of closures passed as arguments: variables they capture and assign
 	if call != nil {
@@ -1191,8 +1262,10 @@ func (fv *FV) callByContract(st *State, c *Contract, fn *types.Func, sig *types.
 	}
 	for _, e := range c.Ensures {
 		func() {
+			pure0 := fv.pure
 			defer func() {
 				if r := recover(); r != nil {
+					fv.pure = pure0
 					if u, ok := r.(unsupported); ok && strings.Contains(u.msg, "impure closure") {
 						fv.note("call %s: postcondition %q not used (%s)", short, e.Label, u.msg)
 						return
@@ -1430,4 +1503,40 @@ func (fv *FV) callMods(call *ast.CallExpr, ms *modSet, depth int) {
 			fv.collectMods(lit.Body, ms, depth+1)
 		}
 	}
+}
+
+// slices.BinarySearchFunc(s, target, cmp): assumed contract. Precondition
+// (checked): "cmp(s[i], target) >= 0" is monotone along s. Result (idx, found):
+// idx is the least position with cmp >= 0 (or len), found iff cmp == 0 there.
+func (fv *FV) binarySearchFunc(st *State, call *ast.CallExpr, args []Val) ([]Val, bool) {
+	s, target, f := args[0], args[1], args[2]
+	if f.Clos == nil || f.Clos.Lit == nil || !strings.HasPrefix(s.S, "(GSeq ") {
+		return nil, false
+	}
+	et := elemType(underCore(fv.info().TypeOf(call.Args[0])))
+	elem := func(i string) Val {
+		return Val{T: fmt.Sprintf("(select (sq.arr %s) %s)", s.T, i), S: seqElemSort(s.S), Go: et}
+	}
+	cmp := func(i string) string {
+		fv.pure++
+		defer func() { fv.pure-- }()
+		r := fv.callClosure(st.clone(), f.Clos, []Val{elem(i), target}, call)
+		return r[0].T
+	}
+	n := fmt.Sprintf("(sq.len %s)", s.T)
+	{
+		chk := st.clone()
+		iv := fv.freshSort("bi", "Int")
+		chk.pc = fv.namePC(and(st.pc, fmt.Sprintf("(and (<= 0 %s) (< %s %s))", iv.T, iv.T, n)))
+		fv.callClosure(chk, f.Clos, []Val{elem(iv.T), target}, call)
+	}
+	fv.oblige(st, "call(slices.BinarySearchFunc).pre", "sorted",
+		fmt.Sprintf("(forall ((a!q Int) (b!q Int)) (=> (and (<= 0 a!q) (<= a!q b!q) (< b!q %s) (>= %s 0)) (>= %s 0)))", n, cmp("a!q"), cmp("b!q")),
+		"slices.BinarySearchFunc needs a slice sorted with respect to cmp", call.Pos())
+	r := fv.freshVal("bsearch", types.Typ[types.Int])
+	found := fv.freshSort("found", "Bool")
+	found.Go = types.Typ[types.Bool]
+	fv.assume(st, fmt.Sprintf("(and (<= 0 %s) (<= %s %s) (=> (< %s %s) (>= %s 0)) (forall ((j!q Int)) (=> (and (<= 0 j!q) (< j!q %s)) (< %s 0))) (= %s (and (< %s %s) (= %s 0))))",
+		r.T, r.T, n, r.T, n, cmp(r.T), r.T, cmp("j!q"), found.T, r.T, n, cmp(r.T)))
+	return []Val{r, found}, true
 }
